@@ -56,4 +56,22 @@ Definition run_cli (cmd : text) (args : list bytes) : option text :=
       else if mode =? 4 then Some (mode_selected_list d c (src_names d c (Some extra) None content names) content)
       else Some (mode_selected_list d c (src_names d c None (Some extra) content names) content) in
     Some (render (match out with Some o => render_stdout o | None => JObj [(L "exit", JStr (L "Invalid length of ID is provided!"))] end))
+  else if is_cmd cmd (L "cli_effects") then
+    (* args: action (0 delete, 1 delete-all, 2 json, 3 other), flags (bit0 clean, bit2 plugins), selection byte, severities,
+       extension, id, then name / regular-flag / content triples in os.walk order *)
+    let act := be_val (arg 0 args) 0 in
+    let fl := be_val (arg 1 args) 0 in
+    let s := sel_of (arg 2 args) (arg 3 args) in
+    let ext := match targ (arg 4 args) with [] => None | t => Some t end in
+    let idt := targ (arg 5 args) in
+    let fix triples (l : list bytes) : list (text * (bool * bytes)) :=
+      match l with n :: r :: c :: t => (targ n, (negb (be_val r 0 =? 0), c)) :: triples t | _ => [] end in
+    let files := triples (skipn 6 args) in
+    let walk := map fst files in
+    let get n := match List.find (fun p => text_eqb (fst p) n) files with Some p => snd p | None => (false, []) end in
+    let d := decoders_of env0 {| allow_plugins := N.testbit fl 2 |} s in
+    let json_ok n := match d_full d (snd (get n)) with Got (eid, _) => Some eid | _ => None end in
+    let action := if act =? 0 then ADelete idt else if act =? 1 then ADeleteAll else if act =? 2 then AJson (N.testbit fl 0) else AList in
+    Some (render (JArr (map (fun e => match e with Remove n => JArr [JStr (L "remove"); JStr n] | Create n => JArr [JStr (L "create"); JStr n] end)
+                            (effects action walk (fun n => fst (get n)) json_ok ext))))
   else None.
